@@ -142,7 +142,9 @@ def oracle(run: runner.Run, oc: Outcome) -> None:
                         # the operator then acted on a view without its own records (by design), and the write of
                         # that blind step can leave the records of two cycles mixed for the steps that follow.
                         if any(e[2] == 'fault-echo' and e[4] == oks[-1].name and e[7] - e[6] >= ctimeout * 0.9
-                               and e[6] <= oks[-1].t0 for e in run.sim.trace):
+                               and e[6] <= oks[-1].t0 for e in run.sim.trace) or \
+                                any(n_ == oks[-1].name and tw_ <= oks[-1].t0
+                                    for (n_, tw_, _) in common.late_echoes(run, ctimeout * 0.9)):
                             excuse = 'blind-echo'
                             oc.probes['probe.double-success-after-blind-step'] = \
                                 oc.probes.get('probe.double-success-after-blind-step', 0) + 1
@@ -207,7 +209,8 @@ def oracle(run: runner.Run, oc: Outcome) -> None:
                 # consistency timeout (the stale step's write may have mixed two cycles' records).
                 name_ = (view or {}).get('metadata', {}).get('name')
                 stale_view = any(e[2] == 'fault-echo' and e[4] == name_ and e[7] - e[6] >= ctimeout * 0.9
-                                 and e[6] <= s.t0 for e in run.sim.trace)
+                                 and e[6] <= s.t0 for e in run.sim.trace) or \
+                    any(n_ == name_ and tw_ <= s.t0 for (n_, tw_, _) in common.late_echoes(run, ctimeout * 0.9))
             if stale_view:
                 oc.probes['probe.stale-view-step'] = oc.probes.get('probe.stale-view-step', 0) + 1
             for w in (s.writes if not stale_view else []):
